@@ -115,6 +115,19 @@ def constCutoffB (sims : List SimCfg) : Bool :=
   let c := (((sims.flatMap (·.inputDelays)).head?).map (·.2.cutoff)).getD 1
   (List.range sims.length).all fun t => (sims.getD t {}).inputDelays.all fun sd => sd.2.cutoff == c
 
+/-! executable forms of the hypotheses of the ancestor-table theorem (`MosaikProofs/Closure/AncTable.lean`) -/
+
+/-- every trigger connection's delay fits the depths of its two simulators, has `cutoff ≤ pre_length`, and its target exists -/
+def shapedTB (sims : List SimCfg) : Bool :=
+  (List.range sims.length).all fun s => (sims.getD s {}).triggers.all fun tr =>
+    tr.2.2.pre == (sims.getD s {}).depth && tr.2.2.tiers.length == (sims.getD tr.2.1 {}).depth &&
+    decide (tr.2.2.cutoff ≤ tr.2.2.pre) && decide (tr.2.1 < sims.length)
+
+/-- all trigger connections have one cutoff (sufficient for `UniformT`; true for every scenario without groups) -/
+def constCutoffTB (sims : List SimCfg) : Bool :=
+  let c := (((sims.flatMap (·.triggers)).head?).map (·.2.2.cutoff)).getD 1
+  (List.range sims.length).all fun s => (sims.getD s {}).triggers.all fun tr => tr.2.2.cutoff == c
+
 /-! ### `cache_triggering_ancestors` -/
 
 /-- `triggering_ancestors` of every simulator: `anc[dest]` = list of (ancestor, min delay) -/
